@@ -313,12 +313,16 @@ Proof. exact text_to_table_headers. Qed.
 
 (* the hypotheses are met by a drawing with an OUTPUT LABEL OVER TWO OUTPUT COLUMNS, ALLOWED VALUES (three header lines), an
    annotation and two rules (hsample, picture in C19/CanvasHeadersSweep.v) and by a one-header-line table with a two-line header
-   (hsample1); the conclusions are recomputed by vm_compute (hplane_ok: text -> plane = mplane; htable_ok: text -> table); the second
+   (hsample1) and by a table whose first input has ONE MERGED ENTRY CELL OVER TWO RULES (hsample2: its fifth text line ├───┤    ├────╫────┤
+   has no separator under the merged cell); the conclusions are recomputed by vm_compute (hplane_ok: text -> plane = mplane; htable_ok: text -> table); the second
    and third text lines of hsample show the label cell without a separator inside and the input expression cells continuing below the
    label line; the label and both component names and output values are among the recognised fields *)
 Example C19_headers_nonvacuous :
   wf_htable hsample = true /\ hplane_ok hsample = true /\ htable_ok hsample = true /\ parsers_ok hsample = true /\
   wf_htable hsample1 = true /\ hplane_ok hsample1 = true /\ htable_ok hsample1 = true /\ parsers_ok hsample1 = true /\
+  wf_htable hsample2 = true /\ hplane_ok hsample2 = true /\ htable_ok hsample2 = true /\ parsers_ok hsample2 = true /\
+  md_reg (header_drawing hsample2) 1 1 = (1, 1, 3, 2) /\ md_reg (header_drawing hsample2) 2 1 = (1, 1, 3, 2) /\
+  nth 4 (mgrid (header_drawing hsample2)) [] = [9500; 9472; 9472; 9472; 9508; 32; 32; 32; 32; 9500; 9472; 9472; 9472; 9472; 9579; 9472; 9472; 9472; 9472; 9508]%N /\
   h_hdr hsample = 3 /\ h_hdr hsample1 = 1 /\ mcols (header_drawing hsample) = 6 /\ mrows (header_drawing hsample) = 5 /\
   length (drawm (header_drawing hsample)) = 352 /\
   hsample_line 1 = [9474; 32; 85; 32; 9474; 65; 97; 32; 32; 9474; 65; 98; 32; 32; 9553; 76; 66; 32; 32; 32; 32; 32; 32; 32; 9553; 67; 97; 32; 32; 32; 9474]%N /\
